@@ -252,6 +252,13 @@ func (m *Manager) createSignedDataToSubmit(ctx context.Context) ([]*types.Signed
 
 	for _, data := range dataList {
 		if len(data.Txs) == 0 {
+			// Empty data is never published. As long as nothing before it is
+			// waiting for submission it is not pending either, so move the
+			// watermark past it; otherwise an idle chain would count every empty
+			// block as pending forever and hit MaxPendingHeadersAndData.
+			if len(signedDataToSubmit) == 0 {
+				m.pendingData.setLastSubmittedDataHeight(ctx, data.Height())
+			}
 			continue
 		}
 		signature, err := m.getDataSignature(data)
